@@ -44,7 +44,7 @@ def show(r):
 def count_kinds(ctx, ss, seen):
     for s in ss:
         k = {"i": "include", "I": "import", "F": "from-import", "S": "scope-" + (s[1] if s[0] == "S" else ""), "X": "extends",
-             "s": "set", "m": "macro", "p": "probe", "a": "probe-attr", "o": "text"}[s[0]]
+             "s": "set", "T": "tuple-set", "m": "macro", "p": "probe", "a": "probe-attr", "o": "text"}[s[0]]
         seen.add(k)
         if s[0] == "i":
             seen.add("include-" + {None: "default", True: "with", False: "without"}[s[3]])
@@ -113,7 +113,7 @@ def run_sets(ctx, jinja2, sets):
         else:
             real = G.real_module(jinja2, ts, n, env=G.make_env(jinja2, ts, srcs, kind=kind))
         case = {"sources": srcs, "main": ts["main"] if mode == "r" else n, "mode": mode, "data": ts["data"],
-                "env_globals": ts["env_globals"], "objects": ts.get("objects", []), "lists": ts.get("lists", {}), "names": ts.get("names", []),
+                "env_globals": ts["env_globals"], "objects": ts.get("objects", []), "lists": ts.get("lists", {}), "list_kinds": ts.get("list_kinds", {}), "names": ts.get("names", []),
                 "template_globals": {k: t["globals"] for k, t in ts["templates"].items()}, "model_line": line}
         nontriv = ({"include", "import", "from-import"} & seen) and real.startswith("O ") and len(real) > 8
         judge(ctx, case, ml, real, bool(nontriv), line)
@@ -189,7 +189,7 @@ def replay(ctx, data):
     ts = {"templates": {n: {"globals": case["template_globals"].get(n, {}), "body": []} for n in case["sources"]},
           "main": case["main"], "data": case["data"], "env_globals": case["env_globals"], "objects": case["objects"],
           "lists": {k: [tuple(t) for t in v] for k, v in case.get("lists", {}).items()},
-          "names": [tuple(x) for x in case.get("names", [])]}
+          "names": [tuple(x) for x in case.get("names", [])], "list_kinds": case.get("list_kinds", {})}
     env = G.make_env(jinja2, ts, case["sources"])
     real = G.real_render(jinja2, ts, env=env) if case["mode"] == "r" else G.real_module(jinja2, ts, case["main"], env=env)
     p = parse(ctx.driver("imp", [case["model_line"]])[0])
